@@ -338,7 +338,11 @@ class SamplerCore:
         import numpy as np
 
         if self.config.vectorize:
-            return self.config.log_likelihood(x), None
+            # Same contract as the pointwise path below: a fresh float64 array. The user's
+            # array was passed through as it is - single-precision values changed weights
+            # and evidence relative to pointwise evaluation, and a read-only or re-used
+            # output buffer was written to / kept by the sampler.
+            return np.array(self.config.log_likelihood(x), dtype=float), None
         elif self.config.pool is not None:
             results = list(self._get_distribute_func()(self.config.log_likelihood, x))
         else:
